@@ -94,6 +94,13 @@ MUST_FIRE = [
     ("coreset-where-erases-nan", ["C01", "C02"], ["R1.4c", "R2.3"], P + "pool/_core_set.py",
      "            latest_distance_tmp = latest_distance.copy()\n            latest_distance_tmp[latest_distance_tmp == 0] = np.inf\n",
      "            latest_distance_tmp = np.where(latest_distance > 0, latest_distance, np.inf)\n"),
+    ("contrastive-neighbours-capped-by-candidates", ["C08"], ["R8.7"], P + "pool/_contrastive_al.py",
+     "max_n_neighbors = min(nn.n_neighbors, len(X_labeled))", "max_n_neighbors = min(nn.n_neighbors, len(X_labeled), len(X_cand))"),
+    ("coreset-plain-sum-over-nan-marked", ["C08", "C01", "C02"], ["R8.8", "R1.3"], P + "pool/_core_set.py",
+     "sum_dist = np.nansum(latest_distance)", "sum_dist = np.sum(latest_distance)"),
+    ("eer-current-error-after-simulation", ["C08"], ["R8.9"], P + "pool/_expected_error_reduction.py",
+     "        # utils are maximized, errors minimized: hence multiply by (-1)\n",
+     "        current_error = self._estimate_current_error(\n            id_clf, idx_train, idx_cand, idx_eval, w_eval\n        )\n"),
     # ---- C03
     ("split-set-state-deleted", ["C03"], ["R3"], BZ,
      "        self.random_state_.set_state(random_state_state)\n", "        pass\n"),
